@@ -19,17 +19,25 @@ ID = 'C16'
 LEAN_MODULE = 'PlasVerif.Properties.C16'
 LEVEL_TEXT = ('Lean 4 theorems over a line-by-line model of ConfigManager.read / setFromString / updateFromDict / ConfigSection.__getitem__ / '
               'InterpolationWrapper and the order of client.main, for EVERY option table with distinct section/key pairs, every list of '
-              'configuration files (any number, any lines) and every command line: run_refines_den (whenever the layering finishes, each option '
-              'holds the value the property prescribes: scalars cli > last file > default, lists extended, dictionaries updated per key, unknown '
-              'keys routed to the first dictionary option of the section), with the clauses default_when_untouched(_model), file_replaces_scalar, '
-              'later_file_wins, file_extends_list, later_file_extends_list, file_extends_dict, cli_overrides_files, cli_extends_list, bool_words '
-              '(setFromString accepts exactly yes/true/on/1 and no/false/off/0, any case), bool_flag_pair, interp_substitutes (every format string '
-              'of literal text, %%, %(name)s), interp_percent, interp_no_percent, readBack_format, interp_terminates_acyclic (no RecursionError when '
-              'references are ranked) as separate theorems; asIs_counterexample is the kernel-checked D3 witness for the pinned code. The live option '
-              'table (all sections incl. html5 and mathjax-macros) is regenerated on every run and table_wf / table_defaults_typed / '
-              'table_flags_distinct / live_table_layering are re-checked on it. Partial: run_defined_on_domain_statement (the code raises nothing '
-              'inside the domain) is proved only for parse_args (run_defined_on_domain_partial); the rest of that direction, and '
-              'argparse/configparser/shlex/int()/float()/dict assignment themselves, are carried by the correspondence streams through the real client.main.')
+              'configuration files (any number, any lines) and every command line. Both directions are proved: run_refines_den (whenever the '
+              'layering finishes, each option holds the value the property prescribes: scalars cli > last file > default, lists extended, '
+              'dictionaries updated per key, unknown keys routed to the first dictionary option of the section) and run_defined_on_domain (inside '
+              'the domain - every scalar value converts, every occurrence is a registered option string of the right arity/type, every denotation '
+              'defined - parse_args, read and updateFromDict raise nothing); layering_exact_on_domain combines them, and model_meets_spec_oracle '
+              'extends it through reading back (wherever the executable spec oracle, with its own format-string parser, is defined, '
+              'config[section][key] of the model returns exactly that value - the comparison the driver makes, for all inputs). Clauses as '
+              'separate theorems: default_when_untouched(_model), file_replaces_scalar, later_file_wins, file_extends_list, '
+              'later_file_extends_list, file_extends_dict, cli_overrides_files, cli_extends_list, cli_applied_after_files, '
+              'den_depends_only_on_own_sources, occurrence_belongs_to_one_option, known_key_sets_its_option, unknown_key_routed_to_first_dict, '
+              'unknown_key_ignored_without_dict, line_concerns_one_option, bool_words (setFromString accepts exactly yes/true/on/1 and '
+              'no/false/off/0, any case), bool_flag_pair, interp_substitutes (every format string of literal text, %%, %(name)s), interp_percent, '
+              'interp_no_percent, readBack_format, readBack_meets_oracle, spec_parser_sound, lookup_resolution (name resolution incl. the '
+              'swallowed-KeyError quirk), interp_terminates_acyclic (no RecursionError when references are ranked), and the type-appropriate-value '
+              'round trips int_written_is_read, float_written_is_read, words_written_are_read, dict_entry_written_is_read, file_sets_int, '
+              'file_sets_bool (what str() prints / blank-joined words / k=v entries are read back as the same value); asIs_counterexample is the '
+              'kernel-checked D3 witness for the pinned code. The live option table (all sections incl. html5 and mathjax-macros) is regenerated '
+              'on every run and table_wf / table_defaults_typed / table_flags_distinct / live_table_layering are re-checked on it. '
+              'argparse/configparser/shlex/int()/float()/dict assignment themselves are carried by the correspondence streams through the real client.main.')
 LEVEL_NOTE = ('Trusted: Lean kernel (axioms propext, Classical.choice, Quot.sound only), the translator (probes defaultConfig()), the correspondence '
               'harness and its generators, CPython, configparser, argparse, shlex. Modelled not verified: numeric literals beyond plain decimals, '
               'non-ASCII case folding, % conversions other than %(name)s and %%, logging side effects.')
